@@ -1970,3 +1970,43 @@ def x_os_open(c):
     if pt is None or not pt <= {"str", "bytes"}:
         c.rz("TypeError", "os.open() of a non-path value", [("nottype", path, frozenset(["str", "bytes"]))], pure=False)
     c.ret(None, ("type", c.term, frozenset(["int"])), pure=False)
+
+
+@ext("struct.unpack", "struct.unpack_from")
+def x_unpack(c):
+    """struct.unpack(fmt, buffer) / unpack_from(fmt, buffer[, offset]) with a constant format:
+    struct.error unless the buffer is long enough (unpack: exactly as long); a tuple of the
+    format's item count"""
+    import struct as _struct
+
+    fmt = c.arg(0, "format")
+    buf = c.arg(1, "buffer")
+    off = c.arg(2, "offset")
+    size = count = None
+    if fmt is not None and is_const(fmt) and isinstance(fmt[2], (str, bytes)):
+        try:
+            size = _struct.calcsize(fmt[2])
+            count = len(_struct.unpack(fmt[2], bytes(size)))
+        except _struct.error:
+            size = None
+    bt = c.types(buf) if buf is not None else None
+    if bt is None or not bt <= {"bytes", "bytearray", "memoryview"}:
+        c.rz("TypeError", "%s() of a value that is not bytes-like" % c.callee[4:], [("nottype", buf, frozenset(["bytes"]))])
+    long_enough = False
+    if size is not None and buf is not None and c.callee.endswith("unpack_from") and (off is None or (is_const(off) and off[2] == 0)):
+        ln = CallT("builtin:len", [buf])
+        for f in c.s.closure():
+            if f[0] == "cmp" and f[2] == ln and is_const(f[3]) and isinstance(f[3][2], int) and ((f[1] == ">=" and f[3][2] >= size) or (f[1] == ">" and f[3][2] >= size - 1)):
+                long_enough = True
+            if f[0] == "eq" and f[1] == ln and is_const(f[2]) and isinstance(f[2][2], int) and f[2][2] >= size:
+                long_enough = True
+    if not long_enough:
+        c.rz("struct.error", "%s() of a buffer of the wrong size" % c.callee[4:])
+    if count is not None:
+        items = tuple(Fresh("unpacked") for _ in range(count))
+        s1 = c.s.copy()
+        for it in items:
+            s1.add(("type", it, frozenset(["int", "bytes", "float", "bool"])))
+        c.ret(("lit", "tuple", items, None), state=s1)
+    else:
+        c.ret(None, ("type", c.term, frozenset(["tuple"])))
